@@ -25,7 +25,7 @@ def _replay(rep, r):
 def run(tier, seed):
     return run_property(
         "C09", tier, seed, level="other",
-        deductive=[("c01_step", r"C09\.raise"), ("c07_clear", r"own_cleared|recursion_on_kth|iterates_over")],
+        deductive=[("c01_step", r"C09\.raise|no_other_exception"), ("c07_clear", r"own_cleared|recursion_on_kth|iterates_over")],
         bounded=[("state_bounded.py", ["--check", "C09"])],
         replay=_replay,
         trusted=["pyvc/graphdom.py heap model"],
